@@ -35,6 +35,26 @@ SWAP_SCHEME = (  # getter, accessor used on the parent, combiner, this level's o
 SWAP_LOCAL_OK = {("getEffectiveSwapUtilPct", "0", "(*swap_max_opt == 0)"): "a cgroup that cannot swap (swap.max = 0) reports 0 % by definition (CgroupContextTest.EffectiveSwapUtilPct)"}
 
 
+def _parent_accessors(P):
+    """names of CgroupContext member functions whose every non-null return is the address of the context the per-tick cache holds for
+    this cgroup's parent: &ctx_.addToCacheAndGet(cgroup_.getParent())->get()"""
+    cache = P.__dict__.setdefault("_parent_accessors", None)
+    if cache is not None:
+        return cache
+    out = []
+    for h in P.fns.values():
+        if h.cls != "Oomd::CgroupContext" or h.kind != "method" or not h.cfg or "CgroupContext" not in (h.d.get("ret") or "") or "*" not in (h.d.get("ret") or ""):
+            continue
+        X = Expander(P, h)
+        vals = [X(h.nodes[r]["val"]) for r in returns(h) if "val" in h.nodes[r]]
+        vals = [v for v in vals if v not in ("nullptr", "0")]
+        if vals and all(v in ("&this->ctx_.addToCacheAndGet(this->cgroup_.getParent())->get()", "&*this->ctx_.addToCacheAndGet(this->cgroup_.getParent())->get()",
+                              "&this->ctx_.addToCacheAndGet(this->cgroup_.getParent()).value().get()") for v in vals):
+            out.append(h.name)
+    P.__dict__["_parent_accessors"] = out
+    return out
+
+
 def effective_swap_scheme(ctx):
     """The three 'effective' swap statistics are folds over the ancestor chain: for a non-root cgroup every value returned is
     combine(parent's effective value, local value) - no path may answer from the local level alone."""
@@ -57,6 +77,13 @@ def effective_swap_scheme(ctx):
                 continue
             n += 1
             parent = "*this->ctx_.addToCacheAndGet(this->cgroup_.getParent())->get().%s(param:err)" % acc
+            # the same parent reached through a member helper that hands out exactly that context (or null)
+            for hn in _parent_accessors(P):
+                for pre, suf in (("*", ""), ("", ".value()")):
+                    alt = "%sthis->%s(param:err)->%s(param:err)%s" % (pre, hn, acc, suf)
+                    if alt in t:
+                        t = t.replace(alt, parent)
+            t = t.replace("this->ctx_.addToCacheAndGet(this->cgroup_.getParent())->get().%s(param:err).value()" % acc, parent)
             if t.startswith(comb + "(") and parent in t:
                 folds += 1
                 rest = t[len(comb) + 1:-1].replace(parent, "", 1).strip(", ")
@@ -98,26 +125,60 @@ def io_cost_tables(ctx):
         ctx.check(bool(tests), "iostat:all-conversions-required", "guard-shape", rd.loc(i), "a line counts only if all %d conversions succeeded" % n_conv,
                   "the scanf result is not compared with the number of conversions (%d)" % n_conv)
     gc = ctx.fn1("Oomd::CgroupContext::getIoCostCumulative")
-    ctx.anchor(gc, "stat", "coeffs", "cost")
-    sums = [i for i, n in enumerate(gc.nodes) if n["k"] == "bin" and n.get("op") == "+=" and gc.text(n["l"]) == "cost" and gc.pos_of(i) is not None]
+    Xg = Expander(P, gc)
+    # the accumulator: the floating local that is returned and `+=`-ed (whatever it is called)
+    acc = sorted({gc.text(n["l"]) for n in gc.nodes if n["k"] == "bin" and n.get("op") == "+=" and re.match(r"^\w+$", gc.text(n["l"]))} &
+                 {ret_text(gc, r) for r in returns(gc)})
+    if len(acc) != 1:
+        raise AnalysisBroken("anchor: getIoCostCumulative accumulates the cost in %d locals %s; the dot-product rule needs exactly one" % (len(acc), acc))
+    sums = [i for i, n in enumerate(gc.nodes) if n["k"] == "bin" and n.get("op") == "+=" and gc.text(n["l"]) == acc[0] and gc.pos_of(i) is not None]
     ctx.counters["io_cost_accumulations"] = len(sums)
     ctx.floor("io_cost_accumulations", 1, "cost += ... in getIoCostCumulative")
+    def dot_terms(g_, node, depth=0):
+        """[(field, field)] of a sum of member-times-member products (following a new one-expression helper), or None"""
+        i_ = g_.strip(node)
+        n_ = g_.nodes[i_]
+        if n_["k"] == "bin" and n_.get("op") == "+":
+            l_, r_ = dot_terms(g_, n_["l"], depth), dot_terms(g_, n_["r"], depth)
+            return None if l_ is None or r_ is None else l_ + r_
+        if n_["k"] == "bin" and n_.get("op") == "*":
+            a_, b_ = g_.nodes[g_.strip(n_["l"])], g_.nodes[g_.strip(n_["r"])]
+            if a_["k"] == "member" and b_["k"] == "member":
+                return [(a_["name"], b_["name"])]
+            return None
+        if n_["k"] == "call" and depth < 2:
+            h_ = Xg._new_pure_helper(n_)
+            if h_ is not None:
+                return dot_terms(h_, next(m for m in h_.nodes if m["k"] == "return")["val"], depth + 1)
+        return None
     for i in sums:
-        prods = re.findall(r"\((?:stat\.(\w+) \* coeffs\.(\w+)|coeffs\.(\w+) \* stat\.(\w+))\)", gc.text(gc.nodes[i]["r"]))
-        pairs = {(a_ or d_): (b_ or c_) for a_, b_, c_, d_ in prods}
-        only_sum = re.sub(r"\((?:stat\.\w+ \* coeffs\.\w+|coeffs\.\w+ \* stat\.\w+)\)", "T", gc.text(gc.nodes[i]["r"]))
-        ctx.check(pairs == IO_PAIRS and len(prods) == 6 and re.match(r"^[T+() ]+$", only_sum) is not None, "io-cost:counter-times-its-coefficient", "table agreement (dot product)", gc.loc(i),
-                  "the cost adds the six products counter x matching coefficient", "the cost is %s (pairs %s)" % (gc.text(gc.nodes[i]["r"])[:160], pairs))
-    cb = case_blocks(gc)
-    fg = Flow(P, gc, cg=cg)
-    ws = [i for i, n in enumerate(gc.nodes) if n["k"] in ("bin", "call") and n.get("op") == "=" and gc.pos_of(i) is not None and gc.text(n.get("l", n.get("recv", -1))) == "coeffs"]
+        terms = dot_terms(gc, gc.nodes[i]["r"])
+        pairs = {}
+        for f1, f2 in terms or []:
+            if f1 in IO_PAIRS:
+                pairs[f1] = f2
+            elif f2 in IO_PAIRS:
+                pairs[f2] = f1
+        ctx.check(terms is not None and pairs == IO_PAIRS and len(terms) == 6, "io-cost:counter-times-its-coefficient", "table agreement (dot product)", gc.loc(i),
+                  "the cost adds the six products counter x matching coefficient", "the cost is %s (pairs %s)" % (Xg(gc.nodes[i]["r"])[:160], pairs))
+    # device type -> coefficient set: assignments (or returns) of a coefficient set under the case facts of the device type, in the
+    # function or in a closure of it
     seen = {}
-    for w in ws:
-        n_ = gc.nodes[w]
-        rhs = gc.text(n_["r"]) if "r" in n_ else gc.text(n_["args"][0])
-        case = [p[5:] for k, p in fg.guards(w) if isinstance(p, str) and p.startswith("case:")]
-        seen[case[0] if case else "?"] = rhs
-    ctx.check(seen == {"SSD": "params.ssd_coeffs", "HDD": "params.hdd_coeffs"}, "io-cost:coefficients-of-the-device-type", "switch_table", gc.loc(),
+    for g_ in [gc] + list(P.lambdas_in(gc)):
+        fg = Flow(P, g_, cg=cg)
+        for w, n_ in enumerate(g_.nodes):
+            if g_.pos_of(w) is None:
+                continue
+            rhs = None
+            if n_["k"] in ("bin", "call") and n_.get("op") == "=" and re.search(r"_coeffs$", g_.text(n_["r"]) if "r" in n_ else (g_.text(n_["args"][0]) if n_.get("args") else "")):
+                rhs = g_.text(n_["r"]) if "r" in n_ else g_.text(n_["args"][0])
+            elif n_["k"] == "return" and "val" in n_ and re.search(r"_coeffs$", g_.text(n_["val"])):
+                rhs = g_.text(n_["val"])
+            if rhs is None:
+                continue
+            case = [p[5:] for k, p in fg.guards(w) if isinstance(p, str) and p.startswith("case:")]
+            seen[case[0] if case else "?"] = rhs.split(".")[-1].split(">")[-1]
+    ctx.check(seen == {"SSD": "ssd_coeffs", "HDD": "hdd_coeffs"}, "io-cost:coefficients-of-the-device-type", "switch_table", gc.loc(),
               "SSD devices use ssd_coeffs, HDD devices hdd_coeffs", "device type -> coefficients is %s" % seen)
 
 
@@ -258,15 +319,22 @@ def rate_definitions(ctx):
     archived yet) - a plain difference, whatever its sign.  kill_by_io_cost and kill_by_pg_scan rank by these values and keep only
     positive ones, so a getter that turns a negative difference into something else changes who is eligible (shared by C09 and C15)."""
     P, cg = ctx.prog, ctx.cg
+    def _cur(x):
+        return r"(?:\*this->%s\([^()]*\)|this->%s\([^()]*\)\.value\(\))" % (x, x)
+
+    def _arch(x):
+        return r"(?:\*this->archive_\.%s|this->archive_\.%s\.value\(\))" % (x, x)
+    DIFF = {"getIoCostRate": r"^\(%s - %s\)$" % (_cur("io_cost_cumulative"), _arch("io_cost_cumulative")),
+            "getPgScanRate": r"^\(%s - %s\)$" % (_cur("pg_scan_cumulative"), _arch("pg_scan_cumulative"))}
     shapes = {
-        "getIoCostRate": r"^\(!this->archive_\.io_cost_cumulative(\.operator bool\(\))? \? 0(\.0)? : \(\*this->io_cost_cumulative\(nullptr\) - \*this->archive_\.io_cost_cumulative\)\)$",
-        "getPgScanRate": r"^\(\*this->pg_scan_cumulative\(nullptr\) - \*this->archive_\.pg_scan_cumulative\)$",
+        "getIoCostRate": r"^\(!this->archive_\.io_cost_cumulative(\.operator bool\(\)|\.has_value\(\))? \? 0(\.0)? : %s\)$" % DIFF["getIoCostRate"][1:-1],
+        "getPgScanRate": DIFF["getPgScanRate"],
     }
-    DIFF = {"getIoCostRate": r"^\(\*this->io_cost_cumulative\(nullptr\) - \*this->archive_\.io_cost_cumulative\)$",
-            "getPgScanRate": shapes["getPgScanRate"]}
     for nm, rx in shapes.items():
         f = ctx.fn1("Oomd::CgroupContext::" + nm)
-        last = [ret_text(f, r) for r in returns(f) if "archive_" in ret_text(f, r)]
+        Xr_ = Expander(P, f)
+        rt_ = lambda r_: Xr_(f.nodes[r_]["val"]) if "val" in f.nodes[r_] else ""
+        last = [rt_(r) for r in returns(f) if "archive_" in rt_(r)]
         ok_ = len(last) == 1 and re.match(rx, last[0]) is not None
         if not ok_ and len(last) == 1 and re.match(DIFF[nm], last[0]) is not None and nm == "getIoCostRate":
             # if/return spelling of the same table: the difference where an archived value exists, 0 where it does not
